@@ -242,7 +242,7 @@ func main() {
 		"states": total.States, "transitions": total.Transitions, "traces_validated_against_impl": total.Executions,
 		"samples": []any{total.Sample}, "exhaustive": total.Exhaustive, "scenarios": len(ss), "distinct_outcomes": len(outcomes),
 		"per_scenario": per,
-		"explanation": "part A: the real stop sequence (reactor.Freeze, the four stage Stops, seencheck close, source stop, reactor.Stop) as a thread that by default runs after the drain; every schedule with at most P deviations moves the stop request before any step of the run (idle, mid-fetch, between stages, while paused), all select outcomes; oracle: the stop sequence returns, every thread has exited, worker gauges are zero, no panic",
+		"explanation":  "part A: the real stop sequence (reactor.Freeze, the four stage Stops, seencheck close, source stop, reactor.Stop) as a thread that by default runs after the drain; every schedule with at most P deviations moves the stop request before any step of the run (idle, mid-fetch, between stages, while paused), all select outcomes; oracle: the stop sequence returns, every thread has exited, worker gauges are zero, no panic",
 	}, []string{
 		"fake transport and fake WARC client: closing/renaming of real WARC files is decided by part B (real process), not here",
 		"source = harness sink + feeder thread (the lq/hq adapters are exercised in C04/C15)",
